@@ -5,7 +5,7 @@ import shutil
 from . import kani as K
 from .emit_l2 import CARGO_TOML, ROOT
 
-REPLAYS = "/verif/replays"
+REPLAYS = os.environ.get("VT_REPLAYS", "/verif/replays")
 REPLAY_TARGET = os.path.join(K.WORK, "target-replay")
 
 
